@@ -7,7 +7,8 @@ denotes exactly the Python integer the operation would give.
 """
 import z3
 
-from . import explore
+import importlib
+explore = importlib.import_module(__package__ + '.explore')
 
 
 class Unsupported(BaseException):
@@ -82,6 +83,15 @@ def term_of(x, w):
     return _bv(int(x), w)
 
 
+def _w(x):
+    """Current term width of an int-like."""
+    if type(x) is SymInt:
+        return x.term.size()
+    if type(x) is SymBool:
+        return 2
+    return sbits(int(x))
+
+
 def bounds(x):
     if type(x) is SymInt:
         return x.lo, x.hi
@@ -126,7 +136,7 @@ def sym_ite(c, a, b):
         alo, ahi = bounds(a)
         blo, bhi = bounds(b)
         lo, hi = min(alo, blo), max(ahi, bhi)
-        w = iwidth(lo, hi)
+        w = max(iwidth(lo, hi), _w(a), _w(b))
         return _fit(z3.If(c.term, term_of(a, w), term_of(b, w)), lo, hi)
     raise Unsupported(f"cannot merge {type(a).__name__} with {type(b).__name__}")
 
@@ -312,7 +322,7 @@ class SymInt:
             return self
         olo, ohi = bounds(o)
         lo, hi = self.lo + olo, self.hi + ohi
-        w = iwidth(lo, hi)
+        w = max(iwidth(lo, hi), self.width, iwidth(olo, ohi))
         return _fit(term_of(self, w) + term_of(o, w), lo, hi)
     __radd__ = __add__
 
@@ -323,7 +333,7 @@ class SymInt:
             return self
         olo, ohi = bounds(o)
         lo, hi = self.lo - ohi, self.hi - olo
-        w = iwidth(lo, hi)
+        w = max(iwidth(lo, hi), self.width, iwidth(olo, ohi))
         return _fit(term_of(self, w) - term_of(o, w), lo, hi)
 
     def __rsub__(self, o):
@@ -331,12 +341,12 @@ class SymInt:
             return NotImplemented
         olo, ohi = bounds(o)
         lo, hi = olo - self.hi, ohi - self.lo
-        w = iwidth(lo, hi)
+        w = max(iwidth(lo, hi), self.width, iwidth(olo, ohi))
         return _fit(term_of(o, w) - term_of(self, w), lo, hi)
 
     def __neg__(self):
         lo, hi = -self.hi, -self.lo
-        w = iwidth(lo, hi)
+        w = max(iwidth(lo, hi), self.width)
         return _fit(-term_of(self, w), lo, hi)
 
     def __pos__(self):
@@ -360,7 +370,7 @@ class SymInt:
         olo, ohi = bounds(o)
         c = (self.lo * olo, self.lo * ohi, self.hi * olo, self.hi * ohi)
         lo, hi = min(c), max(c)
-        w = iwidth(lo, hi)
+        w = max(iwidth(lo, hi), self.width, iwidth(olo, ohi))
         if w > MAX_WIDTH:
             raise Unsupported("product too wide")
         return _fit(term_of(self, w) * term_of(o, w), lo, hi)
@@ -529,11 +539,11 @@ class SymInt:
             if blo == 0:
                 return a
             lo, hi = alo << blo, ahi << blo
-            w = iwidth(lo, hi)
+            w = max(iwidth(lo, hi), iwidth(alo, ahi))
             return _fit(term_of(a, w) << blo, lo, hi)
         c = (alo << blo, alo << bhi, ahi << blo, ahi << bhi)
         lo, hi = min(c), max(c)
-        w = max(iwidth(lo, hi), iwidth(0, bhi))
+        w = max(iwidth(lo, hi), iwidth(0, bhi), iwidth(alo, ahi), iwidth(blo, bhi))
         if w > MAX_WIDTH:
             raise Unsupported("shift result too wide")
         return _fit(term_of(a, w) << term_of(b, w), lo, hi)
@@ -546,7 +556,7 @@ class SymInt:
             return a
         c = (alo >> blo, alo >> bhi, ahi >> blo, ahi >> bhi)
         lo, hi = min(c), max(c)
-        w = max(iwidth(alo, ahi), iwidth(0, bhi))
+        w = max(iwidth(alo, ahi), iwidth(0, bhi), iwidth(blo, bhi))
         if w > MAX_WIDTH:
             # amount far beyond the operand: clamp the amount
             wa = iwidth(alo, ahi)
